@@ -1,7 +1,7 @@
 (* Correspondence for C18: compare the model with what /repo returned on the same inputs.
    Binary strings are lists of booleans ('1' = true).  A returned string is transported as the list of
    its digits (Z), a returned double exactly as (m, e) with value m * 2^e (from float.hex()). *)
-From CPL Require Import Model.Base Model.BienExact Model.Bien.
+From CPL Require Import Model.Base Model.BienExact Model.Bien Model.BienLong.
 
 Inductive fn := FBien | FTbien | FKtbien.
 
@@ -15,8 +15,13 @@ Inductive mout :=
 
 Definition digits (s : list bool) : list Z := map b2z s.
 
+(* up to 301 digits: the twin of Model/Bien.v (80 bits, fixed logarithm table 1..301);
+   longer strings: the twin of Model/BienLong.v (64 bits, a table ln 1 .. ln (n+1) built for the string) *)
 Definition enclosure (f : fn) (s : list bool) : I.type :=
-  match f with FBien => bienI s | FTbien => tbienI s | FKtbien => ktbienI s end.
+  if (length s <=? 301)%nat then
+    match f with FBien => bienI s | FTbien => tbienI s | FKtbien => ktbienI s end
+  else
+    match f with FBien => bienIL prec_long s | FTbien => tbienIL prec_long s | FKtbien => ktbienIL prec_long s end.
 
 Definition model_out (c : case) : mout :=
   match c with
